@@ -27,6 +27,7 @@ import (
 	"sort"
 	"strconv"
 	"testing"
+	"time"
 
 	logger "github.com/containers/nri-plugins/pkg/log"
 	. "github.com/containers/nri-plugins/pkg/resmgr/lib/memory"
@@ -615,7 +616,12 @@ func lmTwin(ops []lmOp, steps []lmStep, mode string, seed int64) (twin []lmOp, t
 
 // ---------------------------------------------------------------- driver
 
-func lmRunScenario(sc *lmScenario) (res lmResult) {
+// lmProgress lets the watchdog report the operation that did not return.
+type lmProgress struct {
+	ops []lmOp
+}
+
+func lmRunScenario(sc *lmScenario, prog *lmProgress) (res lmResult) {
 	res = lmResult{Name: sc.Name, TwinCut: -1, Ops: []lmOp{}, Steps: []lmStep{}}
 	defer func() {
 		if p := recover(); p != nil {
@@ -635,12 +641,14 @@ func lmRunScenario(sc *lmScenario) (res lmResult) {
 		ops = nil
 		for i := 0; i < sc.Gen.N; i++ {
 			op := g.next(i)
+			prog.ops = append(prog.ops, op)
 			st := run.exec(i, op)
 			ops = append(ops, op)
 			g.after(i, op, st)
 		}
 	} else {
 		for i, op := range ops {
+			prog.ops = append(prog.ops, op)
 			run.exec(i, op)
 		}
 	}
@@ -706,9 +714,25 @@ func TestVerifLibmem(t *testing.T) {
 	w := bufio.NewWriterSize(f, 1<<20)
 	enc := json.NewEncoder(w)
 	for i := range scs {
-		res := lmRunScenario(&scs[i])
+		// watchdog: an operation that does not return (overcommit resolution looping) is reported
+		// with the history that led to it; the remaining scenarios are not run
+		prog := &lmProgress{}
+		done := make(chan lmResult, 1)
+		go func(sc *lmScenario) { done <- lmRunScenario(sc, prog) }(&scs[i])
+		var res lmResult
+		stuck := false
+		select {
+		case res = <-done:
+		case <-time.After(20 * time.Second):
+			stuck = true
+			res = lmResult{Name: scs[i].Name, Error: "timeout: operation did not return within 20s", TwinCut: -1,
+				Ops: append([]lmOp{}, prog.ops...), Steps: []lmStep{}}
+		}
 		if err := enc.Encode(&res); err != nil {
 			t.Fatal(err)
+		}
+		if stuck {
+			break
 		}
 	}
 	w.Flush()
